@@ -4,6 +4,8 @@
 -/
 import Kingdon.Properties.C15
 import Kingdon.Lemmas.SourceAccessors
+import Kingdon.Lemmas.SourceKeywords
+import Kingdon.Lemmas.ConstructLemmas
 namespace Kingdon.C15
 open Kingdon Kingdon.SrcEq
 
@@ -32,5 +34,38 @@ theorem source_grade_is_model {α : Type} [Neg α] [Zero α] (c : Cfg) (h : c.ad
 /-- non-vacuity: `x.e31` of 7 e13 + 2 e1 in the 3-D Euclidean algebra is -7, and `x.e9` (no blade of the algebra) is 0 -/
 example : (Src.mv_getattr (algOf (Cfg.default [1, 1, 1] 1)) [5, 1] [(7 : Int), 2] "e31".toList).toOption = some (-7) ∧
     (Src.mv_getattr (algOf (Cfg.default [1, 1, 1] 1)) [5, 1] [(7 : Int), 2] "e9".toList).toOption = some 0 := by decide +kernel
+
+/-- **keyword blades, from the source**: the keyword branch of `MultiVector.__new__` as translated from the python text is the
+    model's `keywordBranch` — same result, `ValueError` exactly where the model refuses -/
+theorem source_keyword_branch_is_model {α : Type} [Neg α] (c : Cfg) (h : c.admissible = true) (items : List (List Nat × α))
+    (hd : (items.map (·.1)).Nodup) (h16 : ∀ p ∈ items, ∀ l ∈ p.1, l < 16) :
+    Src.mv_new_keywords (algOf c) (castItems items) =
+      match Con.keywordBranch c items with
+      | .ok (ks, vs) => .ok (keyNames ks, vs)
+      | .error _ => .error "ValueError" :=
+  mv_new_keywords_eq c h items hd h16
+
+/-- **nothing dropped, nothing negated**: if every keyword is some spelling of a basis blade and no blade is named twice, the
+    python keyword branch returns, and what it returns are exactly the supplied items under their canonical names, each value
+    negated exactly when its spelling is an odd permutation of the canonical one (`Con.canonItem`) -/
+theorem source_keyword_blades_kept {α : Type} [Neg α] (c : Cfg) (h : c.admissible = true) (items : List (List Nat × α)) (hne : items ≠ [])
+    (hsp : ∀ it ∈ items, ∃ n ∈ c.basis, it.1.Perm n) (hdist : (items.map fun it => c.binOf it.1).Nodup) :
+    ∃ sel : List (List Nat × α), sel ≠ [] ∧
+      Src.mv_new_keywords (algOf c) (castItems items) = .ok (sel.map (fun p => pyName p.1), sel.map (·.2)) ∧
+      (∀ p, p ∈ sel ↔ p ∈ items.map (Con.canonItem c)) := by
+  have hadm := Cfg.adm_of_admissible c h
+  obtain ⟨sel, hsne, hkb, hmem⟩ := Con.keywordBranch_spec c hadm items hne hsp hdist
+  have hd : (items.map (·.1)).Nodup := by
+    have e : items.map (fun it => c.binOf it.1) = (items.map (·.1)).map (fun n => c.binOf n) := by
+      rw [List.map_map]; rfl
+    rw [e] at hdist
+    exact List.Nodup.of_map _ hdist
+  have h16 : ∀ p ∈ items, ∀ l ∈ p.1, l < 16 := by
+    intro p hp l hl
+    obtain ⟨n, hn, hperm⟩ := hsp p hp
+    exact vecs16_of_admissible c h l (hadm.names_letters n hn l (hperm.mem_iff.mp hl))
+  refine ⟨sel, hsne, ?_, hmem⟩
+  rw [mv_new_keywords_eq c h items hd h16, hkb]
+  simp [keyNames, List.map_map, Function.comp_def]
 
 end Kingdon.C15
